@@ -54,6 +54,11 @@ prop('C05',
      outside=['TransportManager::next (tokio::select! loop)', 'TCP transport internals (sockets, timers)'],
      )
 
+VARINT_RECEIVE = dict(harness='c04_varint_receive',
+                      covers=['c04v.frame', 'c04v.bad-prefix', 'c04v.oversized', 'c04v.eof-in-prefix', 'c04v.eof-in-frame', 'c04v.pending'],
+                      min_paths=2000, split=5, params={'quick': {'io_budget': 1}, 'thorough': {'io_budget': 3}},
+                      conform={'quick': 200, 'thorough': 3000}, nvals=24)
+
 prop('C04',
      explanation='Bounded symbolic execution of the real Substream Stream/Sink implementations over a scripted carrier whose '
                  'chunking, Pending injections and flush answers are solver-chosen; counterexamples replayed natively.',
@@ -62,8 +67,11 @@ prop('C04',
               params={'quick': {'polls': 2}, 'thorough': {'polls': 3}}, conform={'quick': 40, 'thorough': 300}, nvals=12),
          dict(harness='c04_sink_flush', covers=['c04.flush-ready', 'c04.flush-pending'], min_paths=50, split=4,
               params={'quick': {'polls': 3}, 'thorough': {'polls': 4}}, conform={'quick': 60, 'thorough': 500}, nvals=30),
+         VARINT_RECEIVE,
      ],
-     bounds={'identity payload size': '1..=2048 symbolic', 'varint message': '<= 3 bytes', 'polls': 'quick 2-3, thorough 3-4'},
+     bounds={'varint receive': 'max size 0/2/5, 1..11 symbolic header bytes, payload 0..6 bytes',
+             'identity payload size': '1,2,32,1024,1025,2048', 'varint message (sink)': '<= 3 bytes', 'polls': 'quick 2-3, thorough 3-4',
+             'carrier': 'io_budget scripted answers (Pending / 1 byte / half / all), then ideal'},
      outside=['tcp::Substream pass-through and yamux', 'messages longer than the bounds'],
      )
 
@@ -117,6 +125,9 @@ prop('C19',
      units=[
          dict(harness='c19_multistream_decode', covers=['c19.accepted', 'c19.rejected'], min_paths=30, split=5,
               params={'quick': {'max_len': 8}, 'thorough': {'max_len': 12}}, conform={'quick': 100, 'thorough': 1000}, nvals=16),
+         VARINT_RECEIVE,
+         dict(harness='c18_from_bytes', covers=['c18.bytes.accepted', 'c18.bytes.rejected'], min_paths=300, split=3, conform={'quick': 200, 'thorough': 3000}, nvals=8),
+         dict(harness='c20_block_cid', covers=['c20.delivered', 'c20.dropped'], min_paths=1000, split=6, conform={'quick': 100, 'thorough': 2000}, nvals=10),
      ],
      bounds={'input length': 'quick <= 8 bytes, thorough <= 12 bytes'},
      outside=['prost wire-format decoding (library)', 'Multiaddr byte parsing (library)'],
